@@ -51,7 +51,37 @@ var sysNames = []string{"open", "openat", "execve", "connect", "accept", "bind",
 var modeChoices = []uint32{0o100644, 0o100755, 0o104755, 0o040755, 0o041777, 0o020620, 0o060660, 0o120777, 0o140755, 0o010644}
 
 func genSyscallRec(rt *rapid.T, tk *tokens) kenc.Rec {
+	if all := normSyscalls(); len(all) > 0 && rapid.Bool().Draw(rt, "anynormalisedsyscall") {
+		// every syscall the normalisation table names (its entry decides which PATH record, which address,
+		// which object kind the event is about)
+		// (rapid favours small numbers; the multiplication scatters them over the whole list)
+		return genSyscallRecNamed(rt, tk, all[int((uint64(rapid.Uint32().Draw(rt, "sysidx"))*0x9E3779B1>>7)%uint64(len(all)))])
+	}
 	return genSyscallRecNamed(rt, tk, rapid.SampledFrom(sysNames).Draw(rt, "sysname"))
+}
+
+var normSysOnce sync.Once
+var normSysList []string
+
+// normSyscalls lists the syscall names of the normalisation table that the x86_64 table knows.
+func normSyscalls() []string {
+	normSysOnce.Do(func() {
+		b, err := os.ReadFile("/repo/aucoalesce/normalizations.yaml")
+		if err != nil {
+			return
+		}
+		syscalls, _, err := aucoalesce.LoadNormalizationConfig(b)
+		if err != nil {
+			return
+		}
+		for name := range syscalls {
+			if _, ok := uapi.S.Syscalls["x86_64"][name]; ok {
+				normSysList = append(normSysList, name)
+			}
+		}
+		sort.Strings(normSysList)
+	})
+	return normSysList
 }
 
 func genSyscallRecNamed(rt *rapid.T, tk *tokens, name string) kenc.Rec {
